@@ -23,6 +23,7 @@ OPS = [
     ("opml-source/html/to_data", "d", OPML, D | E["PARSE_OPML"], 0),
     ("html-with-assets/to_data", "d", b"![a](i.png) <k@l.m>\n", D, 12),
     ("epub/to_data", "d", b"Title: E\n\n# H\n\n![a](i.png) text <e@f.g>\n", D, 1),
+    ("textbundle-with-assets/to_data", "d", b"Title: B\nCSS: a.css\n\n![a](i.png) text ![f][r] <t@u.v>\n\n[r]: f.png\n", D, 8),
     ("opml-export/string", "s", NOTES, D, 9),
     ("compat/html/string", "s", b"Setext\n======\n\n<q@r.s> & text $m$ \\\\(n\\\\) $$o$$ [^f] {++c++} \"q\" x^2^ H~2~O [%v] [>ab] [#ci] [?gl] {{TOC}} `r`{=html}\n\n[^f]: n\n\n| t |\n|---|\n| c |\n\nterm\n: def\n", mmd.EXT_COMPAT, 0),
     ("compat/latex/string", "s", b"Setext\n------\n\n$m$ \\\\[n\\\\] [^f] \"q\" a--b\n\n[^f]: n\n", mmd.EXT_COMPAT, 2),
